@@ -73,8 +73,19 @@ def cases(rng, tier):
     ivs = all_intervals()
     for i in range(n):
         q, num = rng.choice(ivs)
-        yield {"k": "part", "seed": rng.randrange(2**31), "q": q, "n": num, "dir": rng.choice(["up", "down"]),
-               "as_part": rng.random() < 0.5}
+        d = {"k": "part", "seed": rng.randrange(2**31), "q": q, "n": num, "dir": rng.choice(["up", "down"]),
+             "as_part": rng.random() < 0.5}
+        # history of the ARGUMENT before the call: read-only views (note array, midi pitches, ...) taken first, in the
+        # middle of its construction (gen_score.build_part `warm`) or right before transposing
+        r = rng.random()
+        if r < 0.3:
+            d["warm"] = rng.choice([2, 16, 31, 63, 64, 127, 128, 255])
+        if rng.random() < 0.5:
+            d["read_first"] = True
+        # how the Score argument came to be (its flat `.parts` is what the caller sees; `part_structure` may lag behind)
+        if not d["as_part"] and rng.random() < 0.4:
+            d["score_form"] = rng.choice(["setitem", "assign_parts", "unfolded_max", "unfolded_min", "grouped"])
+        yield d
 
 
 def call(f, *a):
@@ -179,8 +190,37 @@ def evaluate(d):
     elif k == "part":
         rng = random.Random(d["seed"])
         sd = G.random_score_desc(rng, nparts=1 if d["as_part"] else rng.randint(1, 3), p_unp=0.05, p_tie=0.3)
+        if d.get("warm"):
+            for pd in sd["parts"]:
+                pd["warm"] = d["warm"]
         score = G.build_score(sd)
+        form = d.get("score_form")
+        if form == "setitem":
+            # every part replaced through Score.__setitem__ by an equal, separately built part
+            for i, pd in enumerate(sd["parts"]):
+                score[i] = G.build_part(dict(pd, warm=0))
+        elif form == "assign_parts":
+            score.parts = [G.build_part(dict(pd, warm=0)) for pd in sd["parts"]]
+        elif form in ("unfolded_max", "unfolded_min"):
+            # put a repeat over the first bar of every part, then take the unfolded score (its `.parts` are new parts)
+            for p in score.parts:
+                ms = list(p.iter_all(S.Measure))
+                if ms:
+                    p.add(S.Repeat(), ms[0].start.t, ms[0].end.t)
+            uf, e0 = call(S.unfold_part_maximal if form == "unfolded_max" else S.unfold_part_minimal, score)
+            if e0 is None and isinstance(uf, S.Score):
+                score = uf
+        elif form == "grouped":
+            g = S.PartGroup(group_symbol="brace", group_name="g")
+            g.children = list(score.parts)
+            for p in score.parts:
+                p.parent = g
+            score = S.Score(g, id="g")
         arg = score.parts[0] if d["as_part"] else score
+        if d.get("read_first"):
+            for p in ([arg] if d["as_part"] else list(arg.parts)):
+                call(lambda: p.note_array(include_pitch_spelling=True))
+                call(lambda: [n.midi_pitch for n in p.notes])
         before = G.fingerprint_score(arg, with_ids=True)
         iv = S.Interval(d["n"], d["q"], d["dir"])
         res, e = call(M.transpose, arg, iv)
@@ -210,6 +250,15 @@ def evaluate(d):
             for a, b in zip(ni, no):
                 if (a.id, a.start.t, a.end.t, a.voice, a.staff, type(a)) != (b.id, b.start.t, b.end.t, b.voice, b.staff, type(b)):
                     ev.oracle.append("note %s: onset/duration/voice/staff/id changed" % a.id)
+                # the pitch every public reader reports for the moved note is that of its NEW spelling
+                sp_a = (a.octave + 1) * 12 + BASE[a.step] + (a.alter or 0)
+                sp_b = (b.octave + 1) * 12 + BASE[b.step] + (b.alter or 0)
+                if a.midi_pitch != sp_a:
+                    ev.oracle.append("argument note %s is spelled %s%s%d but reports midi_pitch %s after the call" % (
+                        a.id, a.step, a.alter, a.octave, a.midi_pitch))
+                if b.midi_pitch != sp_b:
+                    ev.oracle.append("result note %s is spelled %s%s%d (= %d) but reports midi_pitch %s" % (
+                        b.id, b.step, b.alter, b.octave, sp_b, b.midi_pitch))
                 if b.midi_pitch != a.midi_pitch + sg * semis(d["q"], d["n"]):
                     ev.oracle.append("note %s (%s%s%d, tie_prev=%s, %s) moved by %d semitones, interval %s%d %s is %d" % (
                         a.id, a.step, a.alter, a.octave, a.tie_prev is not None, type(a).__name__,
@@ -218,11 +267,36 @@ def evaluate(d):
                     ev.oracle.append("note %s moved by the wrong number of staff steps" % a.id)
                 if (a.tie_next is None) != (b.tie_next is None) or (a.tie_next is not None and a.tie_next.id != b.tie_next.id):
                     ev.oracle.append("note %s: tie link changed" % a.id)
+            # the note array of the result (what exports, piano rolls, ... are made from) shows the moved pitches
+            na_i, e1 = call(lambda: pi.note_array())
+            na_o, e2 = call(lambda: po.note_array())
+            if e1 is None and e2 is None and len(na_i) == len(na_o):
+                exp = sorted((str(i_), int(p_) + sg * semis(d["q"], d["n"])) for i_, p_ in zip(na_i["id"], na_i["pitch"]))
+                got = sorted((str(i_), int(p_)) for i_, p_ in zip(na_o["id"], na_o["pitch"]))
+                if exp != got:
+                    bad = [(x, y) for x, y in zip(exp, got) if x != y][:2]
+                    ev.oracle.append("note array of the result: (id, pitch) %s, the argument's moved by %d semitones gives %s" % (
+                        [y for _, y in bad], sg * semis(d["q"], d["n"]), [x for x, _ in bad]))
+            elif (e1 is None) != (e2 is None):
+                ev.oracle.append("note array of the result raises %r, of the argument %r" % (e2, e1))
             # everything that is not a pitched note is unchanged: compare fingerprints with pitch fields masked
             fi, fo = mask_pitch(G.fingerprint_part(pi)), mask_pitch(G.fingerprint_part(po))
             if fi != fo:
                 ev.oracle.append("transpose changed something other than pitch in part %s" % pi.id)
-        ev.key = "part:%d" % d["seed"]
+        # up and then down (down and then up) by the same interval restores the original spelling
+        back, e3 = call(M.transpose, res, S.Interval(d["n"], d["q"], "down" if d["dir"] == "up" else "up"))
+        if e3:
+            ev.oracle.append("transposing the result back raised %r" % (e3,))
+        else:
+            parts_back = [back] if d["as_part"] else list(back.parts)
+            for pi, pb in zip(parts_in, parts_back):
+                sa = [(n.id, n.step, n.alter or 0, n.octave, n.midi_pitch) for n in pi.notes]
+                sb = [(n.id, n.step, n.alter or 0, n.octave, n.midi_pitch) for n in pb.notes]
+                if sa != sb:
+                    bad = [(x, y) for x, y in zip(sa, sb) if x != y][:2]
+                    ev.oracle.append("up and down: (id, step, alter, octave, midi) %s came back as %s" % (
+                        [x for x, _ in bad], [y for _, y in bad]))
+        ev.key = "part:%d:%s:%s:%s" % (d["seed"], d.get("warm"), d.get("read_first"), d.get("score_form"))
     return ev
 
 
